@@ -52,8 +52,15 @@ def variants_generated(rnd, tree):
     for _ in range(2):
         sep = [rnd.choice(["", " ", "\n"])] + [rnd.choice(WSK) for _ in range(1, n)] + [rnd.choice(["", "\r\n", "\t"])]
         out.append(("relayout", "relayout", joined(sep)))
+    if rnd.random() < 0.04:
+        # "any amount of whitespace": runs that push the text past 64 KiB / 1 MiB
+        for w in (" " * 66000, "\n" * 70000, " \t\r\n" * 20000, " " * (1 << 20)):
+            i = rnd.randrange(n + 1)
+            sep = list(base_sep)
+            sep[i] = sep[i] + w
+            out.append(("ws", "ws:huge-%d:%s|%s" % (len(w), tok_kind(toks[i - 1]) if i > 0 else "^", tok_kind(toks[i]) if i < n else "$"), joined(sep)))
     # compact layout: no whitespace where two tokens cannot merge
-    sep = [""] + [("" if ref.glue_ok(toks[i - 1], toks[i]) else " ") for i in range(1, n)] + [""]
+    sep = [""] + [("" if ref.glue_safe(toks[i - 1], toks[i]) else " ") for i in range(1, n)] + [""]
     out.append(("compact", "compact", joined(sep)))
     nodes = [x for x in gen.subtrees(tree) if x[0] != "stmt"]
     if len(nodes) > 25:
